@@ -63,6 +63,8 @@ def tkey(t) -> str:
 
 def mk_cmp(op: str, l: Term, r: Term) -> Term:
     """Canonical comparison: only <, <=, ==, != (sorted operands for ==/!=), is/in kept."""
+    if l[0] == "const" and r[0] == "const" and op in ("==", "!="):
+        return ("const", (l[1] == r[1]) if op == "==" else (l[1] != r[1]))
     if op == ">":
         return ("cmp", "<", r, l)
     if op == ">=":
@@ -525,7 +527,9 @@ class Walker:
         self_class: Optional[str] = None,
         inline: Callable[[FunctionInfo], bool] = None,
         max_depth: int = 3,
+        subst: Dict[Term, Term] = None,
     ):
+        self.subst = subst or {}
         self.repo = repo
         self.entry = entry
         self.self_class = self_class or entry.cls
@@ -945,7 +949,8 @@ class Walker:
                 if base[1] == CONST_MOD:
                     return ("K", e.attr)
                 return ("mod", f"{base[1]}.{e.attr}")
-            return ("attr", base, e.attr)
+            t = ("attr", base, e.attr)
+            return self.subst.get(t, t)
         if isinstance(e, ast.Subscript):
             base = self.ev(e.value, env)
             return ("idx", base, self.ev_index(e.slice, env))
@@ -999,6 +1004,8 @@ class Walker:
                     return mk_ext("max", [a, b])
                 if a == lo and b == hi:
                     return mk_ext("min", [a, b])
+            if c[0] == "const" and isinstance(c[1], bool):
+                return a if c[1] else b
             return ("sel", c, a, b)
         if isinstance(e, ast.Tuple):
             return ("tuple", tuple(self.ev(x, env) for x in e.elts))
@@ -1206,6 +1213,10 @@ class Walker:
         if not g0:
             return None
         (c, pol) = g0[0]
+        if c[0] == "const" and isinstance(c[1], bool):
+            keep = [(g[1:], v) for g, v in items if g[:1] == ((c, pol),)] if (c[1] == pol) else \
+                   [(g[1:], v) for g, v in items if g[:1] == ((c, not pol),)]
+            return self._fold_returns(keep)
         rest_same = [(g[1:], v) for g, v in items if g[:1] == ((c, pol),)]
         rest_other = [(g[1:], v) for g, v in items if g[:1] == ((c, not pol),)]
         if len(rest_same) + len(rest_other) != len(items) or not rest_other:
